@@ -120,13 +120,13 @@ def operations_two(level):
     if level == "two":
         return [["simulate"], ["q.share"], ["to", "float64"], ["to_kw", "float32"], ["alias", "half"],
                 ["alias", "double"], ["d.to", "float64"], ["d.alias", "float"], ["to_tensor", "float64"],
-                ["simulate_init"]]
-    return operations("core") + [["q.share"]]
+                ["simulate_init"], ["register_alias"]]
+    return operations("core") + [["q.share"], ["register_alias"]]
 
 
 Q_DECLARED = "float32"
 # operations after which the persistent hedger is not queried in the quick tier (they neither cast nor simulate)
-NO_HEDGE = ("set_default", "register_buffer", "to_device", "cpu")
+NO_HEDGE = ("set_default", "register_buffer", "register_alias", "to_device", "cpu")
 
 
 class _ParamFree(torch.nn.Module):
@@ -151,6 +151,9 @@ def _apply(world, op):
     target = world.p
     if kind == "q.share":
         world.q.register_buffer("spot", world.p.spot)
+        return
+    if kind == "register_alias":      # an existing buffer tensor under a second name
+        world.p.register_buffer("reference", world.p.get_buffer("spot"))
         return
     if kind.startswith("d."):
         target, kind = world.d, kind[2:]
@@ -226,10 +229,16 @@ class World:
                 kw["dtype"] = DTYPES[ctor[1]]
             if ctor[2] is not None:
                 kw["device"] = torch.device(ctor[2])
+            if self.cfg.get("engine"):      # the documented quasi-random engine instead of torch.randn
+                from pfhedge.stochastic.engine import RandnSobolBoxMuller
+                # (scrambled, seeded: the unscrambled sequence starts at 0 and gives NaN paths in float16, a C11 matter)
+                kw["engine"] = RandnSobolBoxMuller(scramble=True, seed=7)
             self.p = getattr(I, self.cfg["primary"])(dt=DT_STEP, cost=COST, **kw)
             self.d = _derivative(self.cfg["derivative"], self.p)
             # a second instrument of the same class that declares float32, and a derivative on it
             kwq = dict(PRIMARY_KW.get(self.cfg["primary"], {}))
+            if self.cfg.get("engine"):
+                kwq["engine"] = RandnSobolBoxMuller(scramble=True, seed=7)
             self.q = getattr(I, self.cfg["primary"])(dt=DT_STEP, cost=COST, dtype=DTYPES[Q_DECLARED], **kwq)
             self.dq = _derivative(self.cfg["derivative"], self.q)
             n = len(self.history) - 1
@@ -364,13 +373,16 @@ class World:
         dev = getattr(p, "device", "missing")
         return (NAME_OF.get(decl, None if decl is None else str(decl)),
                 None if dev is None else str(dev),
-                tuple((n, NAME_OF.get(b.dtype, str(b.dtype))) for n, b in p.named_buffers()),
+                # read the registry itself (p._buffers), not named_buffers()/buffers(): a listing that skips
+                # an entry must not hide it from the invariant
+                tuple((n, NAME_OF.get(b.dtype, str(b.dtype))) for n, b in p._buffers.items() if b is not None),
                 self.default,
                 (NAME_OF.get(getattr(self.q, "dtype", None), str(getattr(self.q, "dtype", None))),
-                 tuple((n, NAME_OF.get(b.dtype, str(b.dtype))) for n, b in self.q.named_buffers())))
+                 tuple((n, NAME_OF.get(b.dtype, str(b.dtype))) for n, b in self.q._buffers.items()
+                       if b is not None)))
 
     def buffer_devices(self):
-        return tuple(str(b.device) for _, b in self.p.named_buffers())
+        return tuple(str(b.device) for b in self.p._buffers.values() if b is not None)
 
 
 def sim_buffers(primary):
@@ -388,7 +400,7 @@ OBSERVED = {}     # (cfg key, history key) -> observed abstract state (filled as
 
 
 def _ckey(cfg):
-    return (cfg["primary"], cfg["derivative"], cfg["default0"])
+    return (cfg["primary"], cfg["derivative"], cfg["default0"], bool(cfg.get("engine")))
 
 
 def before_state(cfg, hist):
@@ -422,7 +434,7 @@ def check_transition(ctx, cfg, hist, op, after, dead):
         "derivative(" + cfg["derivative"] + ")." + op[0][2:]
     full = hist + [op]
     block = {"primary": cfg["primary"], "derivative": cfg["derivative"], "default0": cfg["default0"],
-             "history": full}
+             "engine": bool(cfg.get("engine")), "history": full}
     before_m = before_state(cfg, hist)
     after_m, expect_exc = DM.step(before_m, _model_op(op), sim_buffers(cfg["primary"]))
     after.build()
@@ -501,6 +513,12 @@ def check_transition(ctx, cfg, hist, op, after, dead):
         ctx.violation(site, f"buffer_dtype_differs_from_declared_after_{op[0]}:{decl_cls}",
                       f"buffers {obs[2]} but the instrument declares {decl}; history {full}",
                       observed=repr(obs[2]), expected=decl, block=block, family="dtype_history")
+    for n, d in obs[2]:
+        got = NAME_OF.get(after.p.get_buffer(n).dtype)
+        if got != d:
+            ctx.violation(site, f"get_buffer_differs_from_registry_after_{op[0]}", f"get_buffer({n!r}) is {got}, "
+                          f"the registry holds {d}; history {full}", observed=got, expected=d, block=block,
+                          family="dtype_history")
     if any(dev != "cpu" for dev in after.buffer_devices()):
         ctx.violation(site, f"buffer_device_after_{op[0]}", f"buffer devices {after.buffer_devices()}",
                       observed=list(after.buffer_devices()), expected="cpu", block=block, family="dtype_history")
@@ -546,6 +564,15 @@ def _bs_pricer():
     return pricer
 
 
+def _root_search_gives_up(exc, dtype, name):
+    """float16/bfloat16 only: the bisection inside quadratic_cvar asks for a precision of 1e-6 x scale, which a
+    half-precision bracket cannot reach; on /repo it stops with RuntimeError 'Aborting since iteration exceeds
+    max_iter'.  The property exempts what half precision does not support: exactly this error, in a QuadraticCVaR
+    query, in a half dtype, is counted as unsupported (any other error, or this one in float32/float64, is judged)."""
+    return (dtype in HALF and "QuadraticCVaR" in name and isinstance(exc, RuntimeError)
+            and "iteration exceeds max_iter" in str(exc))
+
+
 def check_state(ctx, cfg, history, world, level):
     """Queries on a state that has simulated buffers."""
     from pfhedge.features import get_feature
@@ -561,7 +588,7 @@ def check_state(ctx, cfg, history, world, level):
     D = DTYPES[sims[0]]             # dtype of the simulated series
     S = DTYPES[m.sim_dtype()]       # dtype a simulation started now is produced in
     block = {"primary": cfg["primary"], "derivative": cfg["derivative"], "default0": cfg["default0"],
-             "history": history, "queries": level}
+             "engine": bool(cfg.get("engine")), "history": history, "queries": level}
     state_cls = ("undeclared" if m.declared is None else "declared") + \
                 ("" if sims[0] == m.default else "_nondefault")
     n = 0
@@ -574,7 +601,7 @@ def check_state(ctx, cfg, history, world, level):
         except HarnessError:
             raise
         except Exception as e:  # noqa: BLE001
-            if is_backend_unsupported(e, want):
+            if is_backend_unsupported(e, want) or _root_search_gives_up(e, want, name):
                 ctx.add("unsupported_half_precision", 1)
                 ctx.outcome(("unsupported", site, name, str(want), str(e)[:50]))
                 return None
@@ -636,6 +663,21 @@ def check_state(ctx, cfg, history, world, level):
                     query("Hedger.compute_loss", f"compute_loss[{vname}]",
                           lambda: hedger.compute_loss(d, n_paths=3), want)
                     query("Hedger.price", f"price[{vname}]", lambda: hedger.price(d, n_paths=3), want)
+                    if vname == "linear":       # other criteria (root searches inside), both global defaults
+                        from pfhedge.nn import EntropicLoss, ExpectedShortfall, QuadraticCVaR
+                        for cname, crit in (("QuadraticCVaR", QuadraticCVaR(2.0)), ("ExpectedShortfall",
+                                            ExpectedShortfall(0.5)), ("EntropicLoss", EntropicLoss())):
+                            if cname == "QuadraticCVaR" and want in HALF:
+                                # not issued: on /repo the bisection of quadratic_cvar cannot reach its precision
+                                # (1e-6 x scale) in half precision and runs to max_iter = 100000 before raising
+                                # RuntimeError (seconds per call) - counted as unsupported, see _root_search_gives_up
+                                ctx.add("unsupported_half_precision", 2)
+                                ctx.add("half_precision_root_search_not_issued", 2)
+                                continue
+                            hc = Hedger(torch.nn.Linear(n_in, 1), inputs, criterion=crit).to(want)
+                            query("Hedger.compute_loss", f"compute_loss[{cname}]",
+                                  lambda hc=hc: hc.compute_loss(d, n_paths=3), want)
+                            query("Hedger.price", f"price[{cname}]", lambda hc=hc: hc.price(d, n_paths=3), want)
                     if vname == "linear":       # ensemble means over several simulations
                         query("Hedger.compute_loss", "compute_loss[n_times=2]",
                               lambda: hedger.compute_loss(d, n_paths=3, n_times=2), want)
@@ -660,7 +702,8 @@ CTORS = [["ctor", None, None], ["ctor", "float64", None], ["ctor", "float16", No
 @family
 def dtype_bfs(ctx, block):
     cfg = {"primary": block["primary"], "derivative": block["derivative"], "default0": block["default0"],
-           "reads": block.get("queries", "full"), "persistent_hedger": block.get("persistent_hedger", True)}
+           "reads": block.get("queries", "full"), "persistent_hedger": block.get("persistent_hedger", True),
+           "engine": block.get("engine", False)}
     ops = operations_two(block["ops"]) if block["ops"].startswith("two") else operations(block["ops"])
     if block.get("extra_op") and block["extra_op"] not in ops:
         ops = ops + [block["extra_op"]]
@@ -685,7 +728,7 @@ def dtype_bfs(ctx, block):
     def enabled(before, op):
         if _hkey(before.history) in dead:
             return False
-        if op[0] == "q.share":      # needs a simulated spot on the first instrument
+        if op[0] in ("q.share", "register_alias"):      # need a simulated spot on the first instrument
             return any(n == "spot" for n, _ in before_state(cfg, before.history).buffers)
         return True
 
@@ -728,7 +771,7 @@ def dtype_bfs(ctx, block):
 def dtype_history(ctx, block):
     """One explicit history: every transition and the final state's queries."""
     cfg = {"primary": block["primary"], "derivative": block["derivative"], "default0": block["default0"],
-           "reads": "full"}
+           "reads": "full", "engine": block.get("engine", False)}
     h = block["history"]
     dead = set()
     for i in range(1, len(h)):
@@ -783,6 +826,131 @@ def ctor_rejects(ctx, block):
                           expected=name, block=mini)
 
 
+# ---------------------------------------------------------------------------------
+# functional forms called with python numbers; random engines
+# ---------------------------------------------------------------------------------
+# these three do not accept a python-number volatility on /repo (AttributeError: 'float' object has no attribute
+# 'square'): the argument style is outside their domain, so it is not part of the queries
+NUMBER_VOLATILITY_REJECTED = ("bs_lookback_theta", "bs_european_binary_theta", "bs_american_binary_theta")
+BS_MODULES = ("BSEuropeanOption", "BSLookbackOption", "BSAmericanBinaryOption", "BSEuropeanBinaryOption")
+GREEKS = ("price", "delta", "gamma", "vega", "theta")
+
+
+def _bs_args(params, X, style):
+    """(tensor, number, number) = 'tff' and (tensor, tensor, number) = 'ttf'; a running maximum is a tensor."""
+    kw = {}
+    for p in params:
+        if p == "log_moneyness":
+            kw[p] = torch.tensor([-0.1, 0.0, 0.1], dtype=X)
+        elif p == "max_log_moneyness":
+            kw[p] = torch.tensor([0.0, 0.05, 0.2], dtype=X)
+        elif p == "time_to_maturity":
+            kw[p] = torch.tensor([0.1, 0.2, 0.3], dtype=X) if style == "ttf" else 0.1
+        elif p == "volatility":
+            kw[p] = 0.2
+        elif p == "strike":
+            kw[p] = 1.0
+    return kw
+
+
+@family
+def functional_dtypes(ctx, block):
+    """Black-Scholes functional forms and module methods fed with a tensor of dtype X and python numbers, and the
+    random engines asked for dtype X (or None): the result is in X (None: the global default)."""
+    import inspect
+    import pfhedge.nn as N
+    import pfhedge.nn.functional as F
+    import pfhedge.stochastic as S
+    from pfhedge.stochastic.engine import RandnSobolBoxMuller
+    prev = torch.get_default_dtype()
+    default = DTYPES[block["default"]]
+    try:
+        torch.set_default_dtype(default)
+        calls = []
+        for name in sorted(n for n in dir(F) if n.startswith("bs_")):
+            if block.get("only") and name not in block["only"]:
+                continue
+            fn = getattr(F, name)
+            params = list(inspect.signature(fn).parameters)
+            for style in ("tff", "ttf"):
+                if name in NUMBER_VOLATILITY_REJECTED:
+                    continue
+                calls.append((name, name + "[" + style + "]", fn, params, style))
+        for mod in BS_MODULES:
+            for greek in GREEKS:
+                name = f"{mod}.{greek}"
+                if block.get("only") and name not in block["only"]:
+                    continue
+                m = getattr(N, mod)()
+                fn = getattr(m, greek)
+                params = list(inspect.signature(fn).parameters)
+                for style in ("tff", "ttf"):
+                    calls.append((name, name + "[" + style + "]", fn, params, style))
+        for xname in block["dtypes"]:
+            X = DTYPES[xname]
+            rel = "narrower_than_default" if torch.finfo(X).bits < torch.finfo(default).bits else (
+                "wider_than_default" if torch.finfo(X).bits > torch.finfo(default).bits else "default")
+            for site, label, fn, params, style in calls:
+                ctx.tick(1, nontrivial=1 if X != default else 0)
+                mini = {"default": block["default"], "dtypes": [xname], "only": [site]}
+                try:
+                    with torch.no_grad():
+                        out = fn(**_bs_args(params, X, style))
+                except HarnessError:
+                    raise
+                except Exception as e:  # noqa: BLE001
+                    if is_backend_unsupported(e, X):
+                        ctx.add("unsupported_half_precision", 1)
+                        continue
+                    if isinstance(e, AttributeError) and "'float' object has no attribute" in str(e):
+                        # this form does not accept a python number there (calls a Tensor method on it): the
+                        # argument style is outside its domain - counted, not judged (as NUMBER_VOLATILITY_REJECTED)
+                        ctx.add("number_argument_not_accepted", 1)
+                        continue
+                    ctx.violation(site, f"raises:{type(e).__name__}:{style}:{xname}",
+                                  f"{label} raised {type(e).__name__}: {str(e)[:160]} (tensor dtype {xname}, default "
+                                  f"{block['default']})", observed=str(e)[:160], expected=xname, block=mini)
+                    continue
+                if out.dtype != X:
+                    got = NAME_OF.get(out.dtype, str(out.dtype))
+                    follows = "follows_default" if out.dtype == default else got
+                    ctx.violation(site, f"number_argument_dtype:{follows}:tensor_{rel}",
+                                  f"{label} with a {xname} tensor and python-number arguments returns {got} under the "
+                                  f"global default {block['default']}", observed=got, expected=xname, block=mini)
+                ctx.outcome((site, str(out.dtype)))
+        # random engines
+        engines = {"randn_antithetic": S.randn_antithetic,
+                   "randn_sobol_boxmuller": lambda *a, **k: S.randn_sobol_boxmuller(*a, seed=7, **k),
+                   "RandnSobolBoxMuller()": RandnSobolBoxMuller(),
+                   "RandnSobolBoxMuller(scramble=True)": RandnSobolBoxMuller(scramble=True, seed=7)}
+        for ename, eng in engines.items():
+            if block.get("only") and ename not in block["only"]:
+                continue
+            for xname in [None] + list(block["dtypes"]):
+                want = default if xname is None else DTYPES[xname]
+                ctx.tick(1, nontrivial=1)
+                torch.default_generator.manual_seed(5)
+                try:
+                    out = eng(3, 2, dtype=None if xname is None else DTYPES[xname])
+                except HarnessError:
+                    raise
+                except Exception as e:  # noqa: BLE001
+                    if is_backend_unsupported(e, want):
+                        ctx.add("unsupported_half_precision", 1)
+                        continue
+                    ctx.violation(ename, f"raises:{type(e).__name__}:{xname}", f"{ename}(3, 2, dtype={xname}) raised "
+                                  f"{type(e).__name__}: {str(e)[:160]}", observed=str(e)[:160], expected=str(want),
+                                  block={"default": block["default"], "dtypes": block["dtypes"], "only": [ename]})
+                    continue
+                if out.dtype != want or tuple(out.shape) != (3, 2):
+                    ctx.violation(ename, f"engine_dtype:requested_{xname}:got_{NAME_OF.get(out.dtype)}",
+                                  f"{ename}(3, 2, dtype={xname}) returns {out.dtype} {tuple(out.shape)} under default "
+                                  f"{block['default']}", observed=[str(out.dtype), list(out.shape)], expected=str(want),
+                                  block={"default": block["default"], "dtypes": block["dtypes"], "only": [ename]})
+    finally:
+        torch.set_default_dtype(prev)
+
+
 @family
 def batch(ctx, block):
     for b in block["blocks"]:
@@ -815,6 +983,8 @@ def run(ctx):
     primaries = list(INSTRUMENTS)
     for prim in primaries:
         ctx.run("ctor_rejects", {"primary": prim, "dtypes": list(DM.FLOATS) + list(DM.NONFLOAT)})
+    for default in ("float32", "float64"):
+        ctx.run("functional_dtypes", {"default": default, "dtypes": list(DM.FLOATS)})
     blocks = []
     if ctx.quick:
         # every primary class to a fixpoint with one derivative class each (all six classes covered),
@@ -836,6 +1006,13 @@ def run(ctx):
             blocks.append({"primary": prim, "derivative": DERIVATIVES[(i + 3) % len(DERIVATIVES)],
                            "default0": "float32", "ctors": CTORS[:2], "ops": "two", "queries": "core",
                            "queries_per": "signature", "persistent_hedger": False})
+        # Merton / Kou driven by the quasi-random engine RandnSobolBoxMuller(), every constructor variant
+        # (incl. undeclared), both initial global defaults
+        for prim, der in (("MertonJumpStock", "european"), ("KouJumpStock", "lookback_put")):
+            for default0 in ("float32", "float64"):
+                blocks.append({"primary": prim, "derivative": der, "default0": default0, "ctors": CTORS,
+                               "ops": "two", "queries": "core", "queries_per": "signature",
+                               "persistent_hedger": False, "engine": True})
         for b in blocks:
             ctx.run("dtype_bfs", b)
     else:
@@ -852,4 +1029,8 @@ def run(ctx):
             blocks.append({"primary": prim, "derivative": DERIVATIVES[(i + 3) % len(DERIVATIVES)],
                            "default0": "float32", "ctors": CTORS, "ops": "two_full", "queries": "full",
                            "queries_per": "state"})
+        for prim, der in (("MertonJumpStock", "european"), ("KouJumpStock", "lookback_put")):
+            for default0 in ("float32", "float64"):
+                blocks.append({"primary": prim, "derivative": der, "default0": default0, "ctors": CTORS,
+                               "ops": "two_full", "queries": "full", "queries_per": "state", "engine": True})
         ctx.run_parallel("dtype_bfs", blocks, workers=min(8, int(os.environ.get("VERIF_WORKERS", "8"))))
